@@ -137,7 +137,7 @@ Proof. vm_compute. reflexivity. Qed.
 Example O01_body_goose_Ctx_multipleAssignStmt :
   has_body func_bodies "goose.Ctx.multipleAssignStmt"
     "func(s *ast.AssignStmt) coq.Binding"
-    "{ if len(s.Rhs) > 1 { ctx.unsupported(s, ""multiple assignments on right hand side"") } rhs := ctx.expr(s.Rhs[0]) if s.Tok != token.ASSIGN { ctx.unsupported(s, ""%v multiple assignment"", s.Tok) } if len(s.Lhs) > 4 { ctx.unsupported(s, ""assigning more than 4 return values"") } names := make([]string, len(s.Lhs)) for i := 0; i < len(names); i += 1 { names[i] = fmt.Sprintf(""%d_ret"", i) } multipleRetBinding := coq.Binding{Names: names, Expr: rhs} coqStmts := make([]coq.Binding, len(s.Lhs)+1) coqStmts[0] = multipleRetBinding for i, name := range names { coqStmts[i+1] = ctx.assignFromTo(s, s.Lhs[i], coq.IdentExpr(name)) } return coq.Binding{Names: make([]string, 0), Expr: coq.BlockExpr{Bindings: coqStmts}} }" = true.
+    "{ if len(s.Rhs) > 1 { ctx.unsupported(s, ""multiple assignments on right hand side"") } rhs := ctx.exprSpecial(s.Rhs[0], len(s.Lhs) == 2) if s.Tok != token.ASSIGN { ctx.unsupported(s, ""%v multiple assignment"", s.Tok) } if len(s.Lhs) > 4 { ctx.unsupported(s, ""assigning more than 4 return values"") } names := make([]string, len(s.Lhs)) for i := 0; i < len(names); i += 1 { names[i] = fmt.Sprintf(""%d_ret"", i) } multipleRetBinding := coq.Binding{Names: names, Expr: rhs} coqStmts := make([]coq.Binding, len(s.Lhs)+1) coqStmts[0] = multipleRetBinding for i, name := range names { coqStmts[i+1] = ctx.assignFromTo(s, s.Lhs[i], coq.IdentExpr(name)) } return coq.Binding{Names: make([]string, 0), Expr: coq.BlockExpr{Bindings: coqStmts}} }" = true.
 Proof. vm_compute. reflexivity. Qed.
 
 Example O01_body_goose_Ctx_incDecStmt :
